@@ -91,6 +91,8 @@ var special = []string{
 	`permit (principal, action, resource) when { context.a == "1" || context.b == true };`,
 	`permit (principal, action, resource) when { context.b.a == [principal, User::"a"] };`,
 	`permit (principal, action, resource) when { [context.a, 1] == [1] };`,
+	`permit (principal, action, resource) when { ip(context.a).isLoopback() };`,
+	`permit (principal, action, resource) when { decimal(context.a).lessThan(decimal("2.0")) || context.b == "1" };`,
 }
 
 func varsIn(v types.Value, names map[types.String]bool, out map[types.String]bool) {
